@@ -13,7 +13,7 @@
 From Coq Require Import ZArith List Bool.
 Local Ltac c02_scan0 := idtac. (* separates the Require lines for the dependency scanner of lib/vv.py *)
 From VV Require Import Base.F64 Base.Values Interp.Strategy Mep.Genome Mep.Draws Mep.OpsDefs
-  Fitness.F64Order Mep.OpsProofs Mep.CseProofs Mep.ClosureProofs Mep.FuelProofs.
+  Mep.OpsProofs Mep.CseProofs Mep.ClosureProofs Mep.FuelProofs.
 Local Ltac c02_scan1 := idtac.
 Import ListNotations.
 
@@ -94,9 +94,9 @@ Theorem C02_destroy_block_wf : forall ss, wf_sset_b ss = true -> forall patch i 
 Proof. exact destroy_block_wf. Qed.
 Print Assumptions C02_destroy_block_wf.
 
-(* cse() with the repaired comparator, for every well-formed individual (its
-   ephemeral constants are numbers: part of ind_ok_b, established by the
-   constructors from the contract of random::between<double>) *)
+(* cse() with the current comparator (opcode, then the object representation of
+   the parameter -- std::memcmp -- or the arguments lexicographically), for
+   every well-formed individual, whatever its constants *)
 Theorem C02_cse_wf : forall ss, wf_sset_b ss = true -> forall patch i i',
   ind_ok_b ss patch (i_gen i) = true -> cse i = Some i' ->
   ind_ok_b ss patch (i_gen i') = true /\ i_age i' = i_age i /\ i_xt i' = i_xt i.
@@ -109,13 +109,13 @@ Theorem C02_cse_total : forall ss, wf_sset_b ss = true -> forall patch i,
 Proof. exact cse_total. Qed.
 Print Assumptions C02_cse_total.
 
-(* the repaired gene_cmp is a strict weak ordering on the genes of well-formed
-   individuals (symbols of the symbol set, constants that are numbers):
-   irreflexive, and "neither is less" is transitive *)
+(* the current gene_cmp is a strict weak ordering on genes whose symbols belong
+   to the symbol set, for every parameter (NaN included): irreflexive, and
+   "neither is less" is transitive -- what std::map requires *)
 Theorem C02_gene_cmp_repaired_strict_weak_order : forall ss, wf_sset_b ss = true ->
-  (forall k, K (K0n ss) k -> gene_cmp k k = false) /\
-  (forall a b c, K (K0n ss) a -> K (K0n ss) b -> K (K0n ss) c ->
-     gene_equiv gene_cmp a b = true -> gene_equiv gene_cmp b c = true -> gene_equiv gene_cmp a c = true).
+  (forall k, K (K0m ss) k -> gene_cmp_mem k k = false) /\
+  (forall a b c, K (K0m ss) a -> K (K0m ss) b -> K (K0m ss) c ->
+     gene_equiv gene_cmp_mem a b = true -> gene_equiv gene_cmp_mem b c = true -> gene_equiv gene_cmp_mem a c = true).
 Proof. exact gene_cmp_swo. Qed.
 Print Assumptions C02_gene_cmp_repaired_strict_weak_order.
 
@@ -265,15 +265,17 @@ Proof. vm_compute. reflexivity. Qed.
 (* the boundary between gene::operator== and the order cse() needs: three
    ephemeral constants 1, 1.000008, 1.000016 -- neighbours are almost_equal
    (1e-5 relative tolerance), the outer pair is not, so a comparator built on
-   almost_equal is not a strict weak ordering; the exact "<" of the repaired
-   gene_cmp distinguishes all three *)
+   almost_equal is not a strict weak ordering; an exact order (operator<, or the
+   bytes compared by the current gene_cmp) distinguishes all three.  +0.0 and
+   -0.0 are one key for operator< and two keys for the byte order. *)
 Definition ex_na : f64 := F64.of_bits 0x3FF0000000000000.
 Definition ex_nb : f64 := F64.of_bits 0x3FF00008637BD05B.
 Definition ex_nc : f64 := F64.of_bits 0x3FF00010C6F7A0B6.
 Example C02_ex_tolerance_boundary :
   almost_equal ex_na ex_nb = true /\ almost_equal ex_nb ex_nc = true /\ almost_equal ex_na ex_nc = false /\
   par_incomp ex_na ex_nb = false /\ par_incomp ex_nb ex_nc = false /\ par_incomp ex_na ex_nc = false /\
-  par_incomp ex_nb ex_nb = true.
+  par_incomp ex_nb ex_nb = true /\
+  gene_equiv gene_cmp_mem pz nz = false /\ gene_equiv gene_cmp pz nz = true.
 Proof. vm_compute. repeat split; reflexivity. Qed.
 
 (* one-point crossover on 2 rows: the empty range between(1,1); every size_t
